@@ -143,4 +143,16 @@ def pragmaOfRest : List Char → Option (List Char)
     `@jsxImportSource`, `@jsxRuntime`, `@jsxFrag` and a bare `@jsx` give nothing. -/
 def pragmaOfComment (c : List Char) : Option (List Char) := (afterJsxTag c).bind pragmaOfRest
 
+def isLineTerm (ch : Char) : Bool := ch == '\n' || ch == '\r' || ch == '\u2028' || ch == '\u2029'
+
+/-- `text.split(['\n', '\r', '\u{2028}', '\u{2029}'])` -/
+def commentLinesAux : List Char → List Char → List (List Char)
+  | cur, [] => [cur.reverse]
+  | cur, ch :: r => if isLineTerm ch then cur.reverse :: commentLinesAux [] r else commentLinesAux (ch :: cur) r
+
+def commentLines (c : List Char) : List (List Char) := commentLinesAux [] c
+
+/-- what `search_jsx_pragma` extracts from one comment: the annotation of the first LINE that carries one -/
+def pragmaOfCommentText (c : List Char) : Option (List Char) := (commentLines c).findSome? pragmaOfComment
+
 end VueJsx.Text
